@@ -73,6 +73,14 @@ def main():
         }
         json.dump(meta, open(os.path.join(d, "meta.json"), "w"), indent=1)
         rows.append((sid, prop, summary[:230], needs[:200], verdict))
+    # per-property kill table, picked up by engine.write_evidence as coverage.mutant_kill_table
+    os.makedirs(os.path.join(ROOT, "selftest"), exist_ok=True)
+    by_prop = {}
+    for sid, prop, summary, needs, verdict in rows:
+        by_prop.setdefault(prop, []).append({"seeded_change": sid, "what": summary[:160], "quick_tier_verdict": verdict})
+    for prop, lst in by_prop.items():
+        json.dump({"source": "tools/seeded_batch.sh + tools/seeded_table.py (scratch worktrees, VERIF_SEED=0, quick tier)", "caught": sum(1 for x in lst if x["quick_tier_verdict"].startswith("VIOLATION")), "total": len(lst), "changes": lst},
+                  open(os.path.join(ROOT, "selftest", f"{prop}.json"), "w"), indent=1)
     print("| seeded change | breaks | what it does | needs, to manifest | verdict of the property's quick check |")
     print("|---|---|---|---|---|")
     for sid, prop, summary, needs, verdict in rows:
